@@ -14,9 +14,9 @@ from verif.contracts.common import (Obligation, Result, Sym, sym_call, Interp, R
                                     PROVED, REFUTED, UNDECIDED, ERROR, is_sym, isc, seed, witness_arrays)
 
 LEVEL = 'other'
-EXPECTED_MIN = {'quick': 7, 'thorough': 8}
+EXPECTED_MIN = {'quick': 14, 'thorough': 15}
 EXPLANATION = ('PROVED: the custom tangent rules of safe_arccos / safe_arcsin have a denominator bounded away from 0 for ALL x and equal the analytic derivative for |x| <= 1-1e-7; the '
-               'forward-mode derivative programs of safe_norm, normalize, quat_to_3x3, the spring and positional integrator steps are defined (no division by zero, no negative radicand) for '
+               'forward-mode derivative programs of safe_norm, normalize, quat_to_3x3, orthogonals, quat_rot_axis, ang_to_quat / quat_mul_ang, signed_angle (unit references perpendicular to the axis), from_to (w >= 1e-6), quat_to_euler (off the gimbal lock), com.inv_inertia, the spring and positional integrator steps are defined (no division by zero, no negative radicand) for '
                'all inputs in their preconditions, singular inputs included.  BOUNDED (not proof): jax.grad of a weighted state sum after init + 1-3 steps vs central differences in '
                'float64 for the three pipelines on generated models, plus the singular inputs q = 0, qd = 0; finiteness asserted everywhere.')
 TRUSTED = ['jax.jvp / jax.grad (autodiff of the composed program is trusted; the proofs cover the places where brax overrides or guards it)']
@@ -69,7 +69,7 @@ def _native_jvp(name):
   return {'reproduced': bool(bad), 'bad': bad}
 
 
-def jvp_defined(tag, fn_getter, shapes, pre=None, units=(), native=None, tiers=('quick', 'thorough'), timeout=120):
+def jvp_defined(tag, fn_getter, shapes, pre=None, units=(), native=None, tiers=('quick', 'thorough'), timeout=120, lemmas=None):
   names = list(shapes)
 
   def body(A):
@@ -83,11 +83,22 @@ def jvp_defined(tag, fn_getter, shapes, pre=None, units=(), native=None, tiers=(
       return jax.jvp(fn, tuple(args[:n]), tuple(args[n:]))
     I = Interp(A)
     out = sym_call(I, f, *[Sym(prim[nm]) for nm in names], *[Sym(tang[nm]) for nm in names])
+    if I.concrete_nans:
+      return [], [False], (lambda w: dict(native() if native else {'reproduced': False}, derivative_program_nan_at=I.concrete_nans[:3]))
     P = []
     for u in units:
       P.append(sum(e * e for e in prim[u].reshape(-1)) == 1)
     if pre:
       P += pre(A, prim)
+    if lemmas:
+      # algebraic lemmas: instances of unconditional polynomial identities over the inputs.  Each is proved valid on its own (no hypotheses) before it is assumed.
+      for nm, L in lemmas(A, prim):
+        s = z3.Solver()
+        s.set('timeout', 30000)
+        s.add(z3.Not(L))
+        if s.check() != z3.unsat:
+          raise RuntimeError('lemma %s is not a valid identity' % nm)
+        P.append(L)
     goal = [c for _, c in A.side]
     if not goal:
       return P, [True]
@@ -133,6 +144,125 @@ def _g_positional_integrate():
   from verif.contracts import physsys
   sys = physsys.load(physsys.xml_free())
   return lambda p, r, w, v, dw, dv: (lambda o: (o[0].pos, o[0].rot, o[1].ang, o[1].vel))(integrator.integrate_xdd(sys, Transform(pos=p, rot=r), Motion(ang=w, vel=v), Motion(ang=dw, vel=dv)))
+
+
+def _g_orthogonals():
+  """brax.math:orthogonals"""
+  from brax import math
+  return math.orthogonals
+
+
+def _g_quat_rot_axis():
+  """brax.math:quat_rot_axis"""
+  from brax import math
+  return math.quat_rot_axis
+
+
+def _g_ang_to_quat():
+  """brax.math:ang_to_quat, quat_mul_ang"""
+  from brax import math
+  return lambda q, w: (math.ang_to_quat(w), math.quat_mul_ang(q, w))
+
+
+def _g_signed_angle():
+  """brax.math:signed_angle"""
+  from brax import math
+  return math.signed_angle
+
+
+def _g_from_to():
+  """brax.math:from_to"""
+  from brax import math
+  return math.from_to
+
+
+def _g_inv_3x3():
+  """brax.math:inv_3x3"""
+  from brax import math
+  return math.inv_3x3
+
+
+def _g_quat_to_euler():
+  """brax.math:quat_to_euler"""
+  from brax import math
+  return math.quat_to_euler
+
+
+def _g_inv_inertia():
+  """brax.com:inv_inertia"""
+  from brax import com
+  from verif.contracts import physsys
+  from brax.base import Transform
+  sys = physsys.load(physsys.xml_free())
+  return lambda p, r: com.inv_inertia(sys, Transform(pos=p, rot=r))
+
+
+WORDS = ('h', 's', 'hh', 'ss', 'hs', 'sh', 'hhh', 'sss', 'hhs', 'hsh', 'shh', 'hss', 'shs', 'ssh')
+# orthonormal axis triples: the coordinate frame, and the rows of the rotation matrix of the rational unit quaternion (1, 2, 2, 4)/5
+FRAMES = {'xyz': ['1 0 0', '0 1 0', '0 0 1'],
+          'skew': ['-0.6 -0.32 0.736', '0.96 -0.28 0', '-0.0 0.16 0.6 '.strip(), ]}
+
+
+def _skew_axes():
+  from fractions import Fraction as F
+  w, x, y, z = F(1, 5), F(2, 5), F(2, 5), F(4, 5)
+  R = [[1 - 2 * (y * y + z * z), 2 * (x * y - w * z), 2 * (x * z + w * y)], [2 * (x * y + w * z), 1 - 2 * (x * x + z * z), 2 * (y * z - w * x)],
+       [2 * (x * z - w * y), 2 * (y * z + w * x), 1 - 2 * (x * x + y * y)]]
+  return [' '.join(repr(float(R[r][c])) for r in range(3)) for c in range(3)]          # columns of R: exactly orthonormal in Q, rounded to float by the parser
+
+
+def zero_angle_defined(word, frame):
+  """the property names "at rest and at zero joint angles" explicitly: the joint-angle extraction must be differentiable there for EVERY supported stack"""
+  def body(A):
+    from brax import kinematics
+    from brax.base import Transform, Motion
+    from verif.contracts import physsys
+    axes = FRAMES['xyz'] if frame == 'xyz' else _skew_axes()
+    sys = physsys.load(physsys.xml_world_root(word).replace('quat="0.5 -0.5 0.5 0.5"', 'quat="1 0 0 0"') if False else
+                       '<mujoco><worldbody><body name="b" pos="0.3 0 0.1">%s%s</body></worldbody></mujoco>' % (physsys.joints_xml(word, axes=axes), physsys.GEOM))
+    motion = Motion(ang=jp.asarray(np.asarray(sys.dof.motion.ang, dtype=float)), vel=jp.asarray(np.asarray(sys.dof.motion.vel, dtype=float)))
+    rot0 = jp.asarray([1.0, 0.0, 0.0, 0.0])
+
+    def f(pos, rot):
+      frame_, parity = kinematics.link_to_joint_frame(motion)
+      axis, angle, aux = kinematics.axis_angle_ang(Transform(pos=pos, rot=rot), frame_, parity)
+      return axis, angle, aux
+    p, dp, dr = A.arr('p', (3,)), A.arr('dp', (3,)), A.arr('dr', (4,))
+    I = Interp(A)
+    from verif.engine.alg import Unsupported
+    try:
+      sym_call(I, lambda a, b, c: jax.jvp(f, (a, rot0), (b, c)), Sym(p), Sym(dp), Sym(dr))
+    except Unsupported:
+      if not I.concrete_nans:
+        raise
+    if I.concrete_nans:
+      # the primal point is concrete here, so an undefined operation shows up as a NaN computed from NaN-free operands (0/0): that IS the failed side condition
+      A.nan_sites = I.concrete_nans
+      return [], [False], (lambda w: dict(_native_zero(word, axes), derivative_program_nan_at=I.concrete_nans[:3]))
+    goal = [c for _, c in A.side]
+    return [], (goal or [True]), (lambda w: _native_zero(word, axes))
+  return smt_custom('C03/kinematics.axis_angle_ang/jvp_defined_at_zero[%s,%s]' % (word, frame), 'brax.kinematics:link_to_joint_frame,axis_angle_ang (+ math.signed_angle, safe_arccos, normalize)',
+                    'joint stack %s with orthonormal axes (%s frame), joint rotation = identity (zero joint angles), any joint offset: the forward-mode derivative of the joint-angle '
+                    'extraction in EVERY tangent direction has no zero denominator (atan2 at (0,0), norm at 0) and no negative radicand' % (word, frame), body, timeout=60, budget=300, abstract=True)
+
+
+def _native_zero(word, axes):
+  """jax.grad through one spring and one positional step of the one-link model at zero joint angles"""
+  import importlib
+  from brax.io import mjcf
+  from verif.contracts import physsys
+  sys = mjcf.loads('<mujoco><option timestep="0.002"/><worldbody><body name="b" pos="0.3 0 0.1">%s%s</body></worldbody></mujoco>' % (physsys.joints_xml(word, axes=axes), physsys.GEOM))
+  bad = []
+  for backend in ('spring', 'positional'):
+    pl = importlib.import_module('brax.%s.pipeline' % backend)
+
+    def loss(q, qd):
+      st = pl.step(sys, pl.init(sys, q, qd), jp.zeros(sys.act_size()))
+      return jp.sum(st.x.pos) + jp.sum(st.q) + jp.sum(st.qd)
+    g = jax.grad(loss, argnums=(0, 1))(jp.zeros(sys.q_size()), jp.zeros(sys.qd_size()))
+    if not all(np.isfinite(np.asarray(a)).all() for a in g):
+      bad.append((backend, [np.asarray(a).tolist() for a in g]))
+  return {'reproduced': bool(bad), 'stack': word, 'non_finite_gradients': bad}
 
 
 def _native_grad_helper(which):
@@ -264,6 +394,29 @@ def obligations(tier):
          jvp_defined('spring.integrator.integrate', _g_spring_integrate, {'p': (1, 3), 'r': (1, 4), 'w': (1, 3), 'v': (1, 3), 'dw': (1, 3), 'dv': (1, 3)}, units=('r',)),
          jvp_defined('positional.integrator.integrate_xdd', _g_positional_integrate, {'p': (1, 3), 'r': (1, 4), 'w': (1, 3), 'v': (1, 3), 'dw': (1, 3), 'dv': (1, 3)}, units=('r',), timeout=200),
          bounded(tier)]
+  import z3 as _z3
+  dot = lambda a, b: sum(x * y for x, y in zip(a, b))
+  cross = lambda a, b: [a[1] * b[2] - a[2] * b[1], a[2] * b[0] - a[0] * b[2], a[0] * b[1] - a[1] * b[0]]
+  obs += [
+      jvp_defined('orthogonals', _g_orthogonals, {'a': (3,)}, units=('a',)),
+      jvp_defined('quat_rot_axis', _g_quat_rot_axis, {'axis': (3,), 'angle': ()}),
+      jvp_defined('ang_to_quat+quat_mul_ang', _g_ang_to_quat, {'q': (4,), 'w': (3,)}),
+      jvp_defined('signed_angle', _g_signed_angle, {'axis': (3,), 'ref_p': (3,), 'ref_c': (3,)}, units=('axis', 'ref_p', 'ref_c'),
+                  pre=lambda A, p: [dot(p['axis'], p['ref_p']) == 0, dot(p['axis'], p['ref_c']) == 0],
+                  lemmas=lambda A, p: (lambda n: [('lagrange', dot(n, n) + dot(p['ref_p'], p['ref_c']) ** 2 == dot(p['ref_p'], p['ref_p']) * dot(p['ref_c'], p['ref_c'])),
+                                                  ('lagrange2', dot(n, p['axis']) ** 2 + dot(cross(n, p['axis']), cross(n, p['axis'])) == dot(n, n) * dot(p['axis'], p['axis']))] +
+                                                 [('triple[%d]' % k, cross(n, p['axis'])[k] == p['ref_c'][k] * dot(p['ref_p'], p['axis']) - p['ref_p'][k] * dot(p['ref_c'], p['axis'])) for k in range(3)])(
+                                                     cross(p['ref_p'], p['ref_c']))),
+      jvp_defined('from_to', _g_from_to, {'v1': (3,), 'v2': (3,)}, units=('v1', 'v2'), pre=lambda A, p: [1 + dot(p['v1'], p['v2']) >= _z3.RealVal('1/1000000')],
+                  lemmas=lambda A, p: (lambda n: [('lagrange', dot(n, n) + dot(p['v1'], p['v2']) ** 2 == dot(p['v1'], p['v1']) * dot(p['v2'], p['v2']))])(cross(p['v1'], p['v2']))),
+      jvp_defined('quat_to_euler', _g_quat_to_euler, {'q': (4,)}, units=('q',), pre=lambda A, p: [4 * (p['q'][1] * p['q'][3] + p['q'][0] * p['q'][2]) ** 2 < 1]),
+      jvp_defined('com.inv_inertia', _g_inv_inertia, {'p': (1, 3), 'r': (1, 4)}, units=('r',)),
+  ]
+
+  for w_ in WORDS:
+    obs.append(zero_angle_defined(w_, 'xyz'))
+  for w_ in ('sss', 'hhh', 'shs', 'hh', 'hs'):
+    obs.append(zero_angle_defined(w_, 'skew'))
 
   def canary(A):
     # plain jnp.linalg.norm has an undefined derivative at 0: its jvp side conditions must NOT be provable for all x
